@@ -45,6 +45,14 @@ def run(pid, tier):
         hist.append([("D", "u." + s, "\u00e9\u2192 caf\u00e9".encode()), ("F", "d/w." + s, b"\xc3\xa9\n"), ("D", "bin." + s, bytes([0, 159, 146, 150, 255]))])
         # names with more than one dot: the suffix is what follows the last one
         hist.append([("D", "lib.min." + s, b"x"), ("F", "d/logo.2x." + s, b"y"), ("A", "e/h.v1." + s, "to/h.v1." + s, b"z"), ("D", "k.css." + s, b"w")])
+        # contents that begin with a byte order mark: the type still follows the suffix alone (and names a constant that exists)
+        hist.append([("D", "bom." + s, b"\xef\xbb\xbfx{}"), ("F", "d/bomf." + s, b"\xef\xbb\xbf// y\n"), ("A", "e/boma." + s, "to/boma." + s, b"\xef\xbb\xbfz")])
+    # two files on one object whose suffixes are prefixes of one another, in both orders (also an unknown one before / after a known one)
+    for s1, s2 in [("js", "json"), ("json", "jsonp"), ("js", "jsonp"), ("woff", "woff2"), ("htm", "html"), ("c", "css"), ("cs", "css"), ("x", "xml"), ("s", "svg"), ("p", "png"), ("jp", "jpg"), ("jpe", "jpeg"),
+                   ("t", "txt"), ("i", "ico"), ("wa", "wasm"), ("b", "bmp"), ("g", "gif"), ("JS", "json"), ("Woff", "WOFF2")]:
+        for x, y in ((s1, s2), (s2, s1)):
+            hist.append([("D", "one." + x, b"1"), ("D", "two." + y, b"2")])
+            hist.append([("F", "d/one." + x, b"1"), ("A", "e/two." + y, "to/two." + y, b"2"), ("D", "three." + x, b"3")])
     for s in unknown:
         hist.append([("D", "f." + s, b"x")] + ([("A", "e/noext", "to/n", b"z")] if s == "" else [("F", "d/g." + s, b"y"), ("A", "e/h." + s, "to/h." + s, b"z")]))
     # a known suffix in front of an unknown last one (compressed copies, backups): the last suffix decides, the type is the generic one
@@ -132,6 +140,21 @@ def run(pid, tier):
         if get(lr[k]) != get(lr[k + 1]) or not get(lr[k + 1]):
             oracle_fail.append((build_lib.scenario_line(lscen[k]), "mime03: a file added as %s through a symbolic link to a file of another suffix gets %s, a regular file of that name %s" % (
                 lscen[k][2][1], get(lr[k]), get(lr[k + 1])), None))
+    # add_files_as over a directory that mixes files with known suffixes and files without any: every file gets the type it gets when it is
+    # added on its own through add_file_as (whatever the walk met before it)
+    wfiles = ["a.css", "LICENSE", "b.js", "README", "c.json", "Makefile", "d.png", "CNAME", "e.svg", "NOTICE", "f.woff2", "zz", "0", "m.CSS", "AUTHORS", "q.unknownsuffix", "VERSION"]
+    wsc = [[('W', 'st/' + f, b"c") for f in wfiles] + [('R', [('s',), ('t', 'st', 'pub')])],
+           [('W', 'st/' + f, b"c") for f in wfiles] + [('R', [('s',)] + [('a', 'st/' + f, 'pub/' + f) for f in wfiles])]]
+    wr = build_lib.run_scenarios(wsc, harness=h3)
+    def types_of(r):
+        st = ((([x for x in r["runs"] if x["kind"] == "R"] or [{}])[0].get("after") or {}).get(b"templates/statics.rs") or (b"", ""))[0] or b""
+        return dict(re.findall(rb'\n  name: "((?:[^"\\]|\\.)*)",\n  mime: &mime::([A-Za-z0-9_:]+),\n', st))
+    chk.count(("walk " + build_lib.scenario_line(wsc[0])).encode(), True)
+    tw, ta = types_of(wr[0]), types_of(wr[1])
+    if not ta or tw != ta:
+        diff = sorted(k.decode() for k in set(tw) | set(ta) if tw.get(k) != ta.get(k))
+        oracle_fail.append((build_lib.scenario_line(wsc[0]), "mime03: files met by add_files_as get other types than the same files added one by one: %s" % ", ".join(
+            "%s: %s in the walk, %s alone" % (k, (tw.get(k.encode()) or b"-").decode(), (ta.get(k.encode()) or b"-").decode()) for k in diff[:6]), None))
     for h in hist[:2] + hist[-2:]:
         chk.sample(dict(ops=[(op[0], op[1]) for op in h]))
     chk.cov["exhaustive"] = True
